@@ -46,7 +46,13 @@ package autonatv2
 //@ loop 0 invariant 0 <= idx0 && idx0 <= len(r.reqs) && idx == len(r.reqs) && len(r.reqs) == len(old(r.reqs)) &&
 //@         (forall k int :: 0 <= k && k < len(r.reqs) ==> r.reqs[k].Time == old(r.reqs[k].Time) && r.reqs[k].PeerID == old(r.reqs[k].PeerID)) &&
 //@         (forall k int :: 0 <= k && k < idx0 ==> now - r.reqs[k].Time >= MINUTE)
-//@ loop 1 invariant true
+//@ loop 0 invariant forall q peer.ID :: len(r.peerReqs[q]) <= len(old(r.peerReqs[q]))
+//@ loop 0 invariant forall q peer.ID :: len(r.peerReqs[q]) > 0 ==>
+//@         r.peerReqs[q] == old(r.peerReqs[q])[len(old(r.peerReqs[q])) - len(r.peerReqs[q]):]
+//@ loop 0 invariant forall q peer.ID, k int :: 0 <= k && k < len(old(r.peerReqs[q])) - len(r.peerReqs[q]) ==>
+//@         now - old(r.peerReqs[q])[k] >= MINUTE
+//@ loop 1 invariant pi == len(r.peerReqs[e.PeerID]) && 0 <= idx1 && idx1 <= len(r.peerReqs[e.PeerID]) &&
+//@         (forall j2 int :: 0 <= j2 && j2 < idx1 ==> now - r.peerReqs[e.PeerID][j2] >= MINUTE)
 //@ loop 2 invariant 0 <= idx2 && idx2 <= len(r.dialDataReqs) && idx == len(r.dialDataReqs) &&
 //@         (forall k int :: 0 <= k && k < idx2 ==> now - r.dialDataReqs[k] >= MINUTE)
 //@ ensures len(r.reqs) <= len(old(r.reqs))
@@ -59,6 +65,11 @@ package autonatv2
 //@ ensures old(sortedReqs(r)) ==> forall k int :: 0 <= k && k < len(r.dialDataReqs) ==> now - r.dialDataReqs[k] < MINUTE
 //@ ensures forall k int :: 0 <= k && k < len(old(r.dialDataReqs)) - len(r.dialDataReqs) ==> now - old(r.dialDataReqs[k]) >= MINUTE
 //@ ensures old(sortedReqs(r)) ==> sortedReqs(r)
+//@ ensures forall q peer.ID :: len(r.peerReqs[q]) <= len(old(r.peerReqs[q]))
+//@ ensures forall q peer.ID :: len(r.peerReqs[q]) > 0 ==>
+//@         r.peerReqs[q] == old(r.peerReqs[q])[len(old(r.peerReqs[q])) - len(r.peerReqs[q]):]
+//@ ensures forall q peer.ID, k int :: 0 <= k && k < len(old(r.peerReqs[q])) - len(r.peerReqs[q]) ==>
+//@         now - old(r.peerReqs[q])[k] >= MINUTE
 //@ modifies r.reqs, r.dialDataReqs, contents(r.peerReqs)
 
 //@ func (r *rateLimiter) Accept
